@@ -76,6 +76,59 @@ def check_state(case):
     return Info(n_eval=n_eval, n_nontrivial=n_nt, label_counts={f"devices={sum(devs)}": 1})
 
 
+def check_unreferenced(case):
+    """Devices (and drivers) that nobody but the router refers to - built in a helper, registered, the local name dropped -
+    are registered devices like any other. case: {"n": devices, "kind": "plain"|"driver", "gc": bool}"""
+    import gc
+
+    from indi import message
+    from indi.routing import Device, Router
+
+    router = Router()
+    log = []
+
+    def build(i):
+        if case["kind"] == "plain":
+            class Dev(Device):
+                def accepts(self, device):
+                    return device in (None, f"D{i}")
+
+                def message_from_client(self, m):
+                    log.append(i)
+
+            router.register_device(Dev())
+        else:
+            from indi.device import Driver, properties
+
+            cls = type(f"C04Drv{i}", (Driver,), {"g": properties.Group("G", vectors={"v": properties.TextVector("V", elements={"e": properties.Text("E")})})})
+            cls(name=f"D{i}", router=router)  # a bare statement: the router holds the only reference
+
+    for i in range(case["n"]):
+        build(i)
+    if case.get("gc"):
+        gc.collect()
+    if case["kind"] == "plain":
+        router.process_message(message.GetProperties(version="1.7"), sender=None)
+        if sorted(log) != list(range(case["n"])):
+            raise Failure("unreferenced-device-not-served:plain", f"{case}: getProperties reached devices {sorted(log)} of {case['n']} registered")
+    else:
+        from indi.routing import Client
+
+        got = []
+
+        class Rec(Client):
+            def message_from_device(self, m):
+                got.append(getattr(m, "device", None))
+
+        rec = Rec()
+        router.register_client(rec)
+        router.process_message(message.GetProperties(version="1.7"), sender=rec)
+        want = sorted(f"D{i}" for i in range(case["n"]))
+        if sorted(set(got)) != want:
+            raise Failure("unreferenced-device-not-served:driver", f"{case}: definitions came from {sorted(set(got))}, registered {want}")
+    return Info(nontrivial=True, labels=[case["kind"], "after-gc" if case.get("gc") else "no-gc"])
+
+
 def check_history(case):
     w = routing.World(ndev=case["ndev"], ncli=case["ncli"])
     nt = False
@@ -105,7 +158,7 @@ client_history_ops = st.one_of(
 )
 history = st.fixed_dictionaries({"ndev": st.integers(1, 3), "ncli": st.integers(1, 6), "ops": st.lists(client_history_ops, min_size=2, max_size=40)})
 
-SUBCHECKS = {"states": check_state, "history": check_history}
+SUBCHECKS = {"states": check_state, "history": check_history, "unreferenced": check_unreferenced}
 
 
 def states(n):
@@ -119,3 +172,4 @@ def run(ctx):
     cnt = ctx.each("states", states(n), check_state, stop_after=6, timeout=120)
     ctx.exhaustive["states"] = {"complete": True, "n_states": cnt, "bound": f"8 device subsets x 17^{n} client states; every client-originated send x 4 device names x every sender in each"}
     ctx.hyp("history", history, check_history, ctx.scale(400, 8000))
+    ctx.each("unreferenced", [{"n": n_, "kind": k, "gc": g} for n_ in (1, 3) for k in ("plain", "driver") for g in (False, True)], check_unreferenced, stop_after=2)
